@@ -146,11 +146,17 @@ int main(int argc, char** argv)
 				{"par", {hexbits(c), hexbits(s), hexbits(f0), hexbits(xa), hexbits(xb), hexbits(tol), hexbits(xm)}}});
 	}
 	// ---------------------------------------------------------------- N-D
-	int nn = quick ? 600 : 12000;
+	// The first NFIXB cases come from a fixed stream (independent of the seed) and are all bowls: the distance clause is decided on them,
+	// so that the cases listed as known findings are identified individually (field "case"); seeded cases add descent/consistency checks.
+	int NFIXB = quick ? 400 : 2000;
+	int nn = NFIXB + (quick ? 300 : 6000);
+	Rng gfix(11235813), &gseed = g;
 	for(int i = 0; i < nn; i++)
 	{
+		Rng& g = i < NFIXB ? gfix : gseed;
 		int dim = (int)g.range(1, 6), overload = i % 3;
-		bool bowl = (i % 5 != 4);
+		bool bowl = i < NFIXB || (i % 5 != 4);
+		bool judged = i < NFIXB;
 		// strictly convex quadratic f0 + 1/2 sum lam_k (q_k . (x - c))^2 with an orthonormal frame from Gram-Schmidt
 		std::vector<std::vector<double>> Q(dim, std::vector<double>(dim));
 		for(int a = 0; a < dim; a++)
@@ -211,7 +217,7 @@ int main(int argc, char** argv)
 		double best0 = INFINITY;
 		for(auto& v : pp)
 			best0 = std::min(best0, f(v));
-		json ev = {{"e", "MinND"}, {"dim", dim}, {"overload", overload}, {"cls", bowl ? "bowl" : "multimodal"}, {"cond", quant(cond, 1.0)}};
+		json ev = {{"e", "MinND"}, {"dim", dim}, {"overload", overload}, {"cls", judged ? "bowl" : (bowl ? "bowl-free" : "multimodal")}, {"case", judged ? i : -1}, {"cond", quant(cond, 1.0)}};
 		// executed in a child: NMAX exceeded terminates the process
 		ChildResult r = run_child([&]() {
 			Minimization M(ftol);
@@ -250,7 +256,7 @@ int main(int argc, char** argv)
 			double dist = o["dist"], diam = o["diam"];
 			// f - fmin <= 16 ftol (|f0| + TINY) at termination  =>  distance <= sqrt(2 * 16 ftol |f0| / lam_min); plus rounding of f
 			double bound = std::sqrt(2.0 * 16.0 * (ftol * (std::fabs(f0) + 1e-10) + 64 * EPS * std::fabs(f0)) / lmin);
-			ev["dq"]	   = bowl ? quant(dist, bound) : -1;
+			ev["dq"]	   = judged ? quant(dist, bound) : -1;
 			ev["collapsed"] = diam < 1e-2 * dist;
 		}
 		T.emit(ev);
